@@ -762,6 +762,14 @@ func (t *TraefikOidc) processAuthorizedRequest(rw http.ResponseWriter, req *http
 		return
 	}
 
+	// Never let client-supplied identity headers reach the upstream.
+	for _, h := range []string{"X-Forwarded-User", "X-Auth-Request-User", "X-Auth-Request-Token", "X-User-Groups", "X-User-Roles"} {
+		req.Header.Del(h)
+	}
+	for headerName := range t.headerTemplates {
+		req.Header.Del(headerName)
+	}
+
 	groups, roles, err := t.extractGroupsAndRoles(session.GetAccessToken())
 	if err != nil {
 		t.logger.Errorf("Failed to extract groups and roles: %v", err)
